@@ -45,8 +45,7 @@ func (ec *ErrorContainer) AddError(err error) {
 // AddErrorList takes a list of errors and adds them to the container.  Any errors
 // which are nil will be dropped.
 func (ec *ErrorContainer) AddErrorList(el []error) {
-	if ec.errors_ == nil {
-		ec.errors_ = el
+	if ec == nil {
 		return
 	}
 	for i := range el {
